@@ -161,6 +161,17 @@ class ProtoExporter:
         # ...
         pmod = export_external_module(emod)
 
+        # Another `ExternalModule` object of the same qualified name may have been exported already,
+        # e.g. when the same declaration is made by a function called twice.
+        # The same declaration is written once; a different one under the same name is an error, as it is for `Module`s.
+        for other in self.pkg.ext_modules:
+            if other.name == pmod.name:
+                if other != pmod:
+                    msg = f"Cannot export conflicting definitions of ExternalModule `{emod.domain}.{emod.name}`"
+                    raise RuntimeError(msg)
+                self.ext_modules[id(emod)] = other
+                return other
+
         # Store references to the result, and return it
         self.ext_modules[id(emod)] = pmod
         self.pkg.ext_modules.append(pmod)
